@@ -40,6 +40,7 @@ def run(ctx):
             # the pointer engine of `unsafe` is tied to the index engine (SA-ENGINEMAP) and its caches to their fields (SA-MIRROR)
             base = ctx.prog("rel")
             ctx.guard("C13", "mirror", lambda: engine.mirror(ctx, prog))
+            ctx.guard("C13", "cursor", lambda: engine.pointer_cursor(ctx, prog))
             ctx.guard("C13", "enginemap", lambda: engine.engine_correspondence(ctx, base, prog))
         ctx.guard("C13", "const values", lambda: data.const_census(ctx, prog, data.CONST_SCOPES["C13"], floor=1))
         ctx.guard("C13", "overflow-borders", lambda: gen.overflow_borders(ctx, prog))
